@@ -155,24 +155,34 @@ func (in *Interp) ancestor(f *File) *File {
 func (in *Interp) rootOf(f *File) []*Node {
 	a := in.ancestor(f)
 	body := a.Body
-	if n := len(a.Imports); (a.Extends != "" || n > 0) && len(a.HdrWS) > 0 {
-		// whitespace printed after the last header clause is part of the first text token
-		last := n - 1
-		if a.Extends != "" {
-			last++
-		}
-		if last < len(a.HdrWS) && a.HdrWS[last] != "" {
-			if len(body) > 0 && body[0].K == "text" {
-				body = append([]*Node{{K: "text", Text: a.HdrWS[last] + body[0].Text, File: body[0].File, Line: body[0].Line}}, body[1:]...)
-			} else {
-				body = append([]*Node{{K: "text", Text: a.HdrWS[last]}}, body...)
-			}
-		}
+	if a.Extends == "" && len(a.Imports) == 0 {
+		return body
 	}
-	if a.Extends != "" || len(a.Imports) > 0 {
-		for len(body) > 0 && (body[0].K == "comment" || (body[0].K == "text" && strings.TrimSpace(body[0].Text) == "")) {
+	// Whitespace-only text next to the leading extends/import clauses is dropped. The whitespace
+	// printed after the last clause belongs to the first text token of the body.
+	hw := ""
+	if last := len(a.Imports) - 1 + map[bool]int{true: 1, false: 0}[a.Extends != ""]; last >= 0 && last < len(a.HdrWS) {
+		hw = a.HdrWS[last]
+	}
+	for len(body) > 0 {
+		if body[0].K == "comment" {
 			body = body[1:]
+			hw = ""
+			continue
 		}
+		if body[0].K != "text" {
+			break
+		}
+		if strings.TrimSpace(hw+body[0].EffText()) == "" {
+			body = body[1:]
+			continue
+		}
+		break
+	}
+	if hw != "" && len(body) > 0 && body[0].K == "text" && body[0].EffText() != "" {
+		first := *body[0]
+		first.eff, first.hasEff = hw+body[0].EffText(), true
+		body = append([]*Node{&first}, body[1:]...)
 	}
 	return body
 }
@@ -372,6 +382,7 @@ func (in *Interp) fail(n *Node, class, format string, a ...interface{}) {
 func (in *Interp) push(blocks map[string]*blockDef) {
 	in.scope = &frame{vars: map[string]interface{}{}, parent: in.scope, blocks: blocks}
 }
+
 // pop is nil-safe: while a ModelError unwinds, deferred pops run against whatever scope a
 // content closure had switched to; try restores the real scope from its snapshot afterwards.
 func (in *Interp) pop() {
@@ -440,7 +451,7 @@ func (in *Interp) stmt(n *Node) (ret interface{}, has bool) {
 	in.tick()
 	switch n.K {
 	case "text":
-		in.raw([]byte(n.Text))
+		in.raw([]byte(n.EffText()))
 	case "comment":
 	case "print":
 		v, written := in.evalTop(n, n.E)
